@@ -414,6 +414,11 @@ class List(list, base.Symbolic, pg_typing.CustomTyping):
       if isinstance(value, base.Symbolic) and value.sym_parent is self:
         value = value.clone()
 
+    if (should_insert or index >= len(self)) and self.max_size is not None:
+      if self._effective_len() >= self.max_size:
+        raise ValueError(
+            self._error_message(f'List reached its max size {self.max_size}.'))
+
     old_value = pg_typing.MISSING_VALUE
     # Replace an existing value.
     if index < len(self) and not should_insert:
@@ -426,6 +431,7 @@ class List(list, base.Symbolic, pg_typing.CustomTyping):
         # indices of the other updates in the same batch remain valid.
         if pg_typing.MISSING_VALUE == old_value:
           return None
+        self._ensure_removable(1)
         list.__setitem__(self, index, pg_typing.MISSING_VALUE)
         self._detach(old_value)
         return base.FieldUpdate(
@@ -448,6 +454,19 @@ class List(list, base.Symbolic, pg_typing.CustomTyping):
         self.sym_path + index, self,
         self._value_spec.element if self._value_spec else None,
         old_value, new_value)
+
+  def _effective_len(self) -> int:
+    """Returns the length without pending deletion placeholders."""
+    return sum(1 for v in self.sym_values() if pg_typing.MISSING_VALUE != v)
+
+  def _ensure_removable(self, n: int) -> None:
+    """Raises if removing `n` items violates the min size of the list."""
+    if (self._value_spec is not None
+        and self._effective_len() - n < self._value_spec.min_size):
+      raise ValueError(
+          self._error_message(
+              f'Cannot remove item: min size ({self._value_spec.min_size}) '
+              f'is reached.'))
 
   def _detach(self, old_value: Any) -> None:
     """Detaches a removed value from the object tree."""
@@ -567,6 +586,16 @@ class List(list, base.Symbolic, pg_typing.CustomTyping):
         replacements.extend(
             [pg_typing.MISSING_VALUE] * (stop - start - common))
         targets.extend(range(start + common, stop))
+        new_size = len(self) - (stop - start) + (
+            len(replacements) - (stop - start - common))
+        if self.max_size is not None and new_size > max(
+            self.max_size, len(self)):
+          raise ValueError(
+              self._error_message(
+                  f'Cannot assign slice: the number of elements ({new_size}) '
+                  f'exceeds max size ({self.max_size}).'))
+        if new_size < len(self):
+          self._ensure_removable(len(self) - new_size)
       else:
         targets = list(range(start, stop, step))
         if len(targets) != len(replacements):
@@ -619,6 +648,7 @@ class List(list, base.Symbolic, pg_typing.CustomTyping):
       raise TypeError(
           f'list index must be an integer. Encountered {index!r}.')
 
+    self._ensure_removable(len(indices))
     updates = []
     for i in indices:
       old_value = self.sym_getattr(i)
